@@ -25,6 +25,8 @@ static std::string g_journal; // if set: the raw tape of every case is written h
 // ---------------------------------------------------------------- crash dump
 // The case being run, kept where a signal handler can reach it.
 static Tape *volatile g_cur;
+static Tape g_custom_tape;      // custom stages publish "the case being evaluated" here, so that a crash can be replayed
+static char g_hdr_custom[2304];
 static volatile unsigned long g_case_no, g_alarm_seen_case = ~0ul;
 static char g_crash_path[512];
 static char g_hdr[2048]; // "harness ..\nparam ..\n" prepared in advance
@@ -53,8 +55,8 @@ static void dump_current(const char *why)
 	wr(fd, "# librfn-verif replay (process died: ");
 	wr(fd, why);
 	wr(fd, ")\n");
-	wr(fd, g_hdr);
 	Tape *t = g_cur;
+	wr(fd, t == &g_custom_tape ? g_hdr_custom : g_hdr);
 	wr(fd, "tape ");
 	size_t n = t ? t->taken.size() : 0;
 	wr_u(fd, n);
@@ -359,6 +361,17 @@ static void write_failure(bool enumerating)
 	std::vector<uint32_t> t = g_lastfail;
 	run_tape(t.data(), t.size(), enumerating, true, &log, &msg, nullptr);
 	write_replay(g_out + ".fail", t, g_lastfail_msg, log, enumerating);
+}
+
+// A custom stage announces the case it is about to evaluate: a tape of n values (returned, to be filled in / updated
+// in place by the caller) that reproduces it through h_run, plus extra "param k=v\n" lines the replay needs.
+uint32_t *engine_custom_case(size_t n, const char *extra_params)
+{
+	g_cur = nullptr;
+	g_custom_tape.taken.assign(n, 0);
+	snprintf(g_hdr_custom, sizeof g_hdr_custom, "%s%s", g_hdr, extra_params ? extra_params : "");
+	g_cur = &g_custom_tape;
+	return g_custom_tape.taken.data();
 }
 
 // ---------------------------------------------------------------- modes
